@@ -76,8 +76,38 @@ def cond_edges(conds, pred, value):
     return out
 
 
+_NOGEN = {}
+
+
+def _no_generics(name):
+    """`BTreeMap::<K, V, A>::last_key_value` -> `BTreeMap::last_key_value` (turbofish segments removed, nesting respected)"""
+    r = _NOGEN.get(name)
+    if r is None:
+        out, depth, i = [], 0, 0
+        while i < len(name):
+            if depth == 0 and name.startswith("::<", i):
+                depth, i = 1, i + 3
+                continue
+            ch = name[i]
+            if depth:
+                if ch == "<":
+                    depth += 1
+                elif ch == ">" and name[i - 1] != "-":
+                    depth -= 1
+            else:
+                out.append(ch)
+            i += 1
+        r = _NOGEN[name] = "".join(out)
+    return r
+
+
 def is_call_term(t, *suffixes):
-    return isinstance(t, tuple) and t and t[0] == "call" and any(t[1] == s or t[1].endswith(s) for s in suffixes)
+    if not (isinstance(t, tuple) and t and t[0] == "call"):
+        return False
+    if any(t[1] == s or t[1].endswith(s) for s in suffixes):
+        return True
+    n = _no_generics(t[1])
+    return n != t[1] and any(n == s or n.endswith(s) for s in suffixes)
 
 
 def term_has_call(t, *suffixes):
